@@ -60,7 +60,7 @@ def lineNodes (lines : List MLine) : List ANode := lines.flatMap (·.nodes)
 
 /-- The main loop keeps lexical shape: every node of the representation is one of the children. -/
 theorem reprStep_mem (acc : List MLine × MLine × Bound) (node : ANode) (P : ANode → Prop)
-    (hacc : ∀ x ∈ reprNodes acc, P x) (hn : P node) : ∀ x ∈ reprNodes (reprStep acc node), P x := by
+    (hacc : ∀ x ∈ reprNodes acc, P x) (hn : node.kind ≠ .parbreak → P node) : ∀ x ∈ reprNodes (reprStep acc node), P x := by
   obtain ⟨lines, cur, sb⟩ := acc
   unfold reprStep reprNodes at *
   simp only at *
@@ -69,7 +69,9 @@ theorem reprStep_mem (acc : List MLine × MLine × Bound) (node : ANode) (P : AN
     apply hacc x
     have hnil : ({} : MLine).nodes = [] := rfl
     simpa [List.flatMap_append, hnil] using hx
-  · split
+  · rename_i hpb
+    have hpb' : node.kind ≠ .parbreak := by simpa using hpb
+    split
     · exact hacc
     · split
       · intro x hx
@@ -84,10 +86,10 @@ theorem reprStep_mem (acc : List MLine × MLine × Bound) (node : ANode) (P : AN
             split at hx <;> simpa using hx
           rcases List.mem_append.mp this with h | h
           · exact hacc x (List.mem_append.mpr (Or.inr h))
-          · simp only [List.mem_singleton] at h; rw [h]; exact hn
+          · simp only [List.mem_singleton] at h; rw [h]; exact hn hpb'
 
 theorem foldl_reprStep_mem (children : List ANode) (acc : List MLine × MLine × Bound) (P : ANode → Prop)
-    (hacc : ∀ x ∈ reprNodes acc, P x) (hc : ∀ x ∈ children, P x) : ∀ x ∈ reprNodes (children.foldl reprStep acc), P x := by
+    (hacc : ∀ x ∈ reprNodes acc, P x) (hc : ∀ x ∈ children, x.kind ≠ .parbreak → P x) : ∀ x ∈ reprNodes (children.foldl reprStep acc), P x := by
   induction children generalizing acc with
   | nil => exact hacc
   | cons c cs ih =>
@@ -123,12 +125,12 @@ theorem lineNodes_append (a b : List MLine) : lineNodes (a ++ b) = lineNodes a +
 
 /-- **The line representation holds exactly the children that are not white space**, in order, and
 nothing else. -/
-theorem collectMarkupRepr_nodes (children : List ANode) :
+theorem collectMarkupRepr_nodes' (children : List ANode) (P : ANode → Prop) (hc : ∀ x ∈ children, x.kind ≠ .parbreak → P x) :
     (lineNodes (collectMarkupRepr children).lines).filter (fun n => !isWsNode n) = children.filter (fun n => !isWsNode n) ∧
-    (∀ x ∈ lineNodes (collectMarkupRepr children).lines, x ∈ children) := by
+    (∀ x ∈ lineNodes (collectMarkupRepr children).lines, P x) := by
   have hkeep := repr_keeps_every_node children (([] : List MLine), ({} : MLine), Bound.nil)
-  have hmem := foldl_reprStep_mem children (([] : List MLine), ({} : MLine), Bound.nil) (fun x => x ∈ children)
-    (by intro x hx; simp [reprNodes] at hx) (fun x hx => hx)
+  have hmem := foldl_reprStep_mem children (([] : List MLine), ({} : MLine), Bound.nil) P
+    (by intro x hx; simp [reprNodes] at hx) hc
   unfold collectMarkupRepr
   simp only
   generalize children.foldl reprStep (([] : List MLine), ({} : MLine), Bound.nil) = r at hkeep hmem
@@ -154,7 +156,7 @@ theorem collectMarkupRepr_nodes (children : List ANode) :
     have hst : ∀ (l0 : MLine) (b0 : Bound), l0.nodes = last.nodes →
         (lineNodes (lines.dropLast ++ [{ l0 with nodes := (stripTrailing (l0.nodes.length + 1) l0.nodes b0).1 }])).filter (fun n => !isWsNode n)
           = children.filter (fun n => !isWsNode n) ∧
-        (∀ x ∈ lineNodes (lines.dropLast ++ [{ l0 with nodes := (stripTrailing (l0.nodes.length + 1) l0.nodes b0).1 }]), x ∈ children) := by
+        (∀ x ∈ lineNodes (lines.dropLast ++ [{ l0 with nodes := (stripTrailing (l0.nodes.length + 1) l0.nodes b0).1 }]), P x) := by
       intro l0 b0 hl0
       have hs := stripTrailing_filter (l0.nodes.length + 1) l0.nodes b0
       have hfull : lineNodes lines = lineNodes lines.dropLast ++ last.nodes := by
@@ -178,6 +180,11 @@ theorem collectMarkupRepr_nodes (children : List ANode) :
     split
     · exact hst _ _ rfl
     · exact hst _ _ rfl
+
+theorem collectMarkupRepr_nodes (children : List ANode) :
+    (lineNodes (collectMarkupRepr children).lines).filter (fun n => !isWsNode n) = children.filter (fun n => !isWsNode n) ∧
+    (∀ x ∈ lineNodes (collectMarkupRepr children).lines, x ∈ children) :=
+  collectMarkupRepr_nodes' children (· ∈ children) (fun _ hx _ => hx)
 
 /-! ### printing the lines -/
 
@@ -273,9 +280,12 @@ theorem getDelim_carries (scope : Scope) (isSym hasLB suppressed : Bool) (b : Bo
     · exact Carries.hardline
     · exact Carries.hardline
 
-/-- **`convert_markup_impl` carries what the children of the node prescribe**, for every scope. -/
-theorem convMarkup_carries {Q : ANode → Prop} (e : Env) (r : Rec) (hr : RecOK r Q) (ctx : Ctx) (k : Kind) (cs : List ANode) (a : Attrs)
-    (scope : Scope) (hok : ∀ x ∈ cs, MarkupChildOK Q x) :
+/-- **`convert_markup_impl` carries what the children of the node prescribe**, for every scope;
+`convert_markup_impl` on children that may include paragraph breaks of any kind — also one that
+carries the `@typstyle off` mark: the line representation turns every `Parbreak` into a line boundary
+before any child is converted, so the mark on it is never looked at. -/
+theorem convMarkup_carries_parbreak {Q : ANode → Prop} (e : Env) (r : Rec) (hr : RecOK r Q) (ctx : Ctx) (k : Kind) (cs : List ANode) (a : Attrs)
+    (scope : Scope) (hok : ∀ x ∈ cs, MarkupChildOK Q x ∨ (x.kind = .parbreak ∧ ANode.tokensAreLeaves x = true)) :
     Post (convMarkup e r ctx (.inner k cs a) scope) (fun d => Carries d (specAllL cs)) := by
   have hlex : ANode.tokensAreLeavesL cs = true := by
     clear hr
@@ -283,7 +293,7 @@ theorem convMarkup_carries {Q : ANode → Prop} (e : Env) (r : Rec) (hr : RecOK 
     | nil => rfl
     | cons c cs ih =>
       simp only [ANode.tokensAreLeavesL, Bool.and_eq_true]
-      exact ⟨(hok c List.mem_cons_self).1, ih (fun x hx => hok x (List.mem_cons_of_mem _ hx))⟩
+      exact ⟨(hok c List.mem_cons_self).elim (·.1) (·.2), ih (fun x hx => hok x (List.mem_cons_of_mem _ hx))⟩
   unfold convMarkup
   refine Post.bind (Q := fun _ => True) (fun _ _ _ _ => trivial) (fun _ _ => ?_)
   by_cases h1 : (isOnlyOneAnd (ANode.inner k cs a).children fun x => x.kind == Kind.space) = true
@@ -297,12 +307,12 @@ theorem convMarkup_carries {Q : ANode → Prop} (e : Env) (r : Rec) (hr : RecOK 
       cases rest with
       | nil =>
         simp only [isOnlyOneAnd] at h1
-        rw [specAllL_cons, specAllL_nil, Streams.app_empty, specAll_space c (hok c List.mem_cons_self).1 (by simpa using h1)]
+        rw [specAllL_cons, specAllL_nil, Streams.app_empty, specAll_space c ((hok c List.mem_cons_self).elim (·.1) (·.2)) (by simpa using h1)]
         exact Carries.space
       | cons c2 rest2 => simp [isOnlyOneAnd] at h1
   · rw [if_neg h1]
     simp only [ANode.children]
-    have hrepr := collectMarkupRepr_nodes cs
+    have hrepr := collectMarkupRepr_nodes' cs (MarkupChildOK Q) (fun x hx hpb => (hok x hx).resolve_right (fun h => hpb h.1))
     have hlexlines : ANode.tokensAreLeavesL (lineNodes (collectMarkupRepr cs).lines) = true := by
       generalize lineNodes (collectMarkupRepr cs).lines = ns at hrepr
       have hm := hrepr.2
@@ -311,7 +321,7 @@ theorem convMarkup_carries {Q : ANode → Prop} (e : Env) (r : Rec) (hr : RecOK 
       | nil => rfl
       | cons x xs ih =>
         simp only [ANode.tokensAreLeavesL, Bool.and_eq_true]
-        exact ⟨(hok x (hm x List.mem_cons_self)).1, ih (fun y hy => hm y (List.mem_cons_of_mem _ hy))⟩
+        exact ⟨(hm x List.mem_cons_self).1, ih (fun y hy => hm y (List.mem_cons_of_mem _ hy))⟩
     have hspec : specAllL (lineNodes (collectMarkupRepr cs).lines) = specAllL cs :=
       specAllL_of_filter_eq _ _ hlexlines hlex hrepr.1
     have key : ∀ (ls : List MLine) (d0 : Doc) (s0 : Streams), Carries d0 s0 → (∀ x ∈ lineNodes ls, MarkupChildOK Q x) →
@@ -329,8 +339,14 @@ theorem convMarkup_carries {Q : ANode → Prop} (e : Env) (r : Rec) (hr : RecOK 
         have hcons : lineNodes (l :: rest) = l.nodes ++ lineNodes rest := by unfold lineNodes; simp
         rw [hcons, specAllL_append, ← Streams.app_assoc]
         exact this
-    refine Post.bind (key (collectMarkupRepr cs).lines Doc.nil {} Carries.nil (fun x hx => hok x (hrepr.2 x hx))) (fun d h => Post.pure ?_)
+    refine Post.bind (key (collectMarkupRepr cs).lines Doc.nil {} Carries.nil (fun x hx => hrepr.2 x hx)) (fun d h => Post.pure ?_)
     rw [Streams.empty_app, hspec] at h
     simpa using h.enclose (getDelim_carries _ _ _ _ _) (getDelim_carries _ _ _ _ _)
+
+/-- The same for children none of which needs the parbreak exemption. -/
+theorem convMarkup_carries {Q : ANode → Prop} (e : Env) (r : Rec) (hr : RecOK r Q) (ctx : Ctx) (k : Kind) (cs : List ANode) (a : Attrs)
+    (scope : Scope) (hok : ∀ x ∈ cs, MarkupChildOK Q x) :
+    Post (convMarkup e r ctx (.inner k cs a) scope) (fun d => Carries d (specAllL cs)) :=
+  convMarkup_carries_parbreak e r hr ctx k cs a scope (fun x hx => Or.inl (hok x hx))
 
 end Typstyle
